@@ -494,22 +494,13 @@ def python_tables():
 
 # ------------------------------------------------------------------------------------------ Lean
 def lstr(s):
-    out = ['"']
+    """a text as the numeral understood by `MjProof.CType.dS`: bytes big-endian after a leading 1"""
+    n = 1
     for ch in s:
-        if ch == "\\":
-            out.append("\\\\")
-        elif ch == '"':
-            out.append('\\"')
-        elif ch == "\n":
-            out.append("\\n")
-        elif ch == "\t":
-            out.append("\\t")
-        elif 32 <= ord(ch) < 127:
-            out.append(ch)
-        else:
-            out.append("\\u{%x}" % ord(ch))
-    out.append('"')
-    return "".join(out)
+        if not (0 < ord(ch) < 256):
+            raise Refuse("text %r has a character outside 1..255" % s)
+        n = n * 256 + ord(ch)
+    return "(dS 0x%x)" % n
 
 
 def lbool(b):
@@ -599,7 +590,7 @@ def emit_headers(h, types_ast):
          "    parameter) with the AST computed by the translator -/",
          "def typeTable : TypeTable := ["]
     for i, (s, t) in enumerate(zip(h.type_strings, types_ast)):
-        L.append("  (%s, %s)%s  -- %d" % (lstr(s), ltype(t), "," if i + 1 < len(types_ast) else "", i))
+        L.append("  (%s, %s)%s  -- %d: %s" % (lstr(s), ltype(t), "," if i + 1 < len(types_ast) else "", i, s.replace("\n", " ")))
     L.append("]")
     L.append("")
     names = []
